@@ -65,7 +65,7 @@ Proof.
   destruct args as [|a [|p [|x r]]].
   - eexists. split; reflexivity.
   - apply B.
-  - destruct (static_int p); [apply B|]. eexists. split; reflexivity.
+  - destruct (static_int p) as [pv|]; [destruct (precision_ok pv); [apply B|]|]; eexists; split; reflexivity.
   - eexists. split; reflexivity.
 Qed.
 
